@@ -347,6 +347,11 @@ def prov(v: dict, env: List[dict], x: dict, inv: dict, mode: str, out: List[str]
                 prov(cv, env, found[0], ci, mode, out, f"{where}.{json.dumps(norm(key))[:30]}", fuel - 1)
             return
         if e == "custom":
+            # a whole-object check failed: it was given (and the error holds) the object *built* from the fields'
+            # payloads, which is a new object, never the caller's
+            if held.get("t") in ("dict", "tuple", "list", "inst") and held.get("oid", 0) != 0 and \
+                    not (held.get("t") == "tuple" and not held.get("xs")):
+                out.append(f"{where}: whole-object error holds a caller's object, not the object built from the payloads")
             return
         out.append(f"{where}: record validator reported {e}")
         return
@@ -462,6 +467,13 @@ def oracle_C03(case: dict, real: dict, model: dict) -> List[str]:
                     continue
         except KeyError:
             continue
+        # container-level predicates, evaluated with the real predicate objects on the gated container: if one
+        # of them fails, the container must not be accepted (whatever the elements are)
+        if "valid" in o and v["k"] != "ntuple":
+            pf = failing_container_preds(v, x, m)
+            if pf:
+                out.append(f"{m}: container predicates {pf} fail on the container, yet it is accepted")
+                continue
         if v["k"] == "map":
             out += check_map(v, env, x, o, m)
             continue
@@ -510,6 +522,34 @@ def oracle_C03(case: dict, real: dict, model: dict) -> List[str]:
                 elif norm(inv["children"]) != norm([results[i]["invalid"] for i in bad]):
                     out.append(f"{m}: an index error is not the child's own Invalid")
     return out
+
+
+def failing_container_preds(v: dict, x: dict, mode: str) -> List[str]:
+    """names of the container's own predicates (sync ones; in async mode also the async ones) that return False
+    on the gated container; only for validators without coercer or with the default tuple coercer"""
+    co = v.get("coerce")
+    ctx = wire.Ctx()
+    try:
+        xv = wire.mk_value(ctx, x)
+        if co == "default" and v["k"] == "utuple":
+            xv = tuple(xv)
+        elif co is not None:
+            return []
+        names = []
+        for pd in (v.get("preds") or []):
+            p = build.mk_pred(ctx, pd)
+            if p(xv) is False:
+                names.append(pd["k"])
+        if mode == "async":
+            for pd in (v.get("apreds") or []):
+                p = build.mk_apred(ctx, pd) if hasattr(build, "mk_apred") else None
+                if p is None:
+                    continue
+                if build.drive(p.validate_async(xv)) is False:
+                    names.append("async:" + pd["k"])
+        return names
+    except Exception:  # noqa
+        return []
 
 
 def py_set(pay: List[dict]) -> dict:
@@ -1103,6 +1143,10 @@ def _ctx_wrappers(v: dict, x: dict, payload_hashable: bool) -> List[Tuple[str, d
         ("record", {"k": "record", "vid": 9006, "kind": "record", "keys": [K], "vals": [v], "reqs": [True], "oc": None,
                     "aoc": None, "failUnknown": False, "into": {"id": 9906, "f": "tupleOf", "keys": [K]}},
          {"t": "dict", "oid": 9106, "kvs": [[K, x]]}, ("xs", 0)),
+        ("record with an optional key", {"k": "record", "vid": 9011, "kind": "record", "keys": [K],
+                    "vals": [{"k": "knr", "vid": 9911, "inner": v}], "reqs": [False], "oc": None,
+                    "aoc": None, "failUnknown": False, "into": {"id": 9912, "f": "tupleOf", "keys": [K]}},
+         {"t": "dict", "oid": 9111, "kvs": [[K, x]]}, ("xs_just", 0)),
         ("maybe", {"k": "maybe", "vid": 9007, "inner": v}, {"t": "just", "oid": 9107, "v": x}, ("v", None)),
         ("union1", {"k": "union", "vid": 9008, "vs": [v]}, x, None),
         ("user", {"k": "user", "vid": 9009, "inner": v}, x, None),
@@ -1144,7 +1188,14 @@ def oracle_C18(case: dict, real: dict, model: dict) -> List[str]:
             inner = r["valid"]
             if path is not None:
                 f, i = path
-                inner = inner["kvs"][i][1] if f == "kvs" else (inner["v"] if f == "v" else inner[f][i])
+                if f == "xs_just":
+                    inner = inner["xs"][i]
+                    if inner.get("t") != "just":
+                        out.append(f"{m}: a present optional key does not deliver Just(payload) inside a {name}")
+                        continue
+                    inner = inner["v"]
+                else:
+                    inner = inner["kvs"][i][1] if f == "kvs" else (inner["v"] if f == "v" else inner[f][i])
             if norm(inner) != norm(base["valid"]):
                 out.append(f"{m}: payload inside a {name} differs from the validator's own payload")
         else:
